@@ -279,3 +279,174 @@ def bind_args(fnode, call, bound=False):
             if d is None and p not in m:
                 errs.append(f"missing required keyword-only argument '{p}'")
     return m, errs
+
+
+# ----------------------------------------------------------------------------- constant-seeded linear paths
+_UNDEC = object()
+
+
+def const_test(e, consts):
+    """evaluate a test expression under known constants; _UNDEC if it cannot be decided"""
+    if isinstance(e, ast.Constant):
+        return e.value
+    if isinstance(e, ast.Name):
+        return consts[e.id] if e.id in consts else _UNDEC
+    if isinstance(e, ast.UnaryOp) and isinstance(e.op, ast.Not):
+        v = const_test(e.operand, consts)
+        return _UNDEC if v is _UNDEC else (not v)
+    if isinstance(e, ast.BoolOp):
+        vals = [const_test(v, consts) for v in e.values]
+        if isinstance(e.op, ast.And):
+            if any(v is not _UNDEC and not v for v in vals):
+                return False
+            return _UNDEC if any(v is _UNDEC for v in vals) else True
+        if any(v is not _UNDEC and v for v in vals):
+            return True
+        return _UNDEC if any(v is _UNDEC for v in vals) else False
+    if isinstance(e, ast.Compare) and len(e.ops) == 1:
+        l, r = const_test(e.left, consts), const_test(e.comparators[0], consts)
+        if isinstance(e.comparators[0], (ast.Tuple, ast.List)) and l is not _UNDEC:
+            items = [const_test(x, consts) for x in e.comparators[0].elts]
+            if all(i is not _UNDEC for i in items):
+                if isinstance(e.ops[0], ast.In):
+                    return l in items
+                if isinstance(e.ops[0], ast.NotIn):
+                    return l not in items
+        if l is _UNDEC or r is _UNDEC:
+            return _UNDEC
+        op = e.ops[0]
+        try:
+            if isinstance(op, ast.Eq):
+                return l == r
+            if isinstance(op, ast.NotEq):
+                return l != r
+            if isinstance(op, ast.Is):
+                return l is r
+            if isinstance(op, ast.IsNot):
+                return l is not r
+            if isinstance(op, ast.Lt):
+                return l < r
+            if isinstance(op, ast.Gt):
+                return l > r
+            if isinstance(op, ast.LtE):
+                return l <= r
+            if isinstance(op, ast.GtE):
+                return l >= r
+        except Exception:
+            return _UNDEC
+    return _UNDEC
+
+
+def linear_path(body, consts):
+    """statements executed for the given constants: decidable `if`s are replaced by the taken branch, everything else
+    is kept; stops after the first top-level return/raise on the path."""
+    out = []
+    for s in body:
+        if isinstance(s, ast.If):
+            t = const_test(s.test, consts)
+            if t is _UNDEC:
+                out.append(s)
+                continue
+            sub = linear_path(s.body if t else s.orelse, consts)
+            out.extend(sub)
+            if sub and isinstance(sub[-1], (ast.Return, ast.Raise)):
+                return out
+            continue
+        out.append(s)
+        if isinstance(s, (ast.Return, ast.Raise)):
+            return out
+    return out
+
+
+class PathFn:
+    """a view of a function restricted to a linear path: supports expand()/assignments like a FuncInfo"""
+
+    def __init__(self, fi, consts):
+        self.fi = fi
+        self.mod = fi.mod
+        self.cls = fi.cls
+        self.qual = fi.qual
+        self.consts = dict(consts)
+        self.stmts = linear_path(fi.node.body, consts)
+        node = ast.FunctionDef(name=fi.node.name, args=fi.node.args, body=self.stmts or [ast.Pass()], decorator_list=[], returns=None)
+        ast.copy_location(node, fi.node)
+        self.node = node
+        self._locals = getattr(fi, "_locals", None)
+
+    def returns(self):
+        return [s for s in self.stmts if isinstance(s, ast.Return)]
+
+
+# ----------------------------------------------------------------------------- flow-sensitive expansion along a linear path
+class _SubstEnv(ast.NodeTransformer):
+    def __init__(self, env, bound=()):
+        self.env = env
+        self.bound = set(bound)
+
+    def visit_Name(self, node):
+        if isinstance(node.ctx, ast.Load) and node.id in self.env and node.id not in self.bound:
+            return copy.deepcopy(self.env[node.id])
+        return node
+
+    def _comp(self, node):
+        # comprehension variables shadow outer names
+        names = set()
+        for g in node.generators:
+            for n in ast.walk(g.target):
+                if isinstance(n, ast.Name):
+                    names.add(n.id)
+        sub = _SubstEnv(self.env, self.bound | names)
+        for g in node.generators:
+            g.iter = sub.visit(g.iter)
+            g.ifs = [sub.visit(i) for i in g.ifs]
+        if hasattr(node, "elt"):
+            node.elt = sub.visit(node.elt)
+        else:
+            node.key = sub.visit(node.key)
+            node.value = sub.visit(node.value)
+        return node
+
+    visit_ListComp = visit_GeneratorExp = visit_SetComp = visit_DictComp = _comp
+
+
+def stored_names(stmt):
+    out = set()
+    for n in ast.walk(stmt):
+        if isinstance(n, ast.Name) and isinstance(n.ctx, (ast.Store, ast.Del)):
+            out.add(n.id)
+    return out
+
+
+def seq_env(stmts, upto=None, env=None):
+    """symbolic environment name -> defining expression (already substituted) after executing `stmts` in order;
+    names written inside compound statements become opaque.  Stops before statement `upto` if given."""
+    env = dict(env or {})
+    for s in stmts:
+        if s is upto:
+            break
+        if isinstance(s, ast.Assign) and len(s.targets) == 1 and isinstance(s.targets[0], ast.Name):
+            env[s.targets[0].id] = _SubstEnv(env).visit(copy.deepcopy(s.value))
+        elif isinstance(s, ast.Assign) and len(s.targets) == 1 and isinstance(s.targets[0], (ast.Tuple, ast.List)) \
+                and isinstance(s.value, (ast.Tuple, ast.List)) and len(s.value.elts) == len(s.targets[0].elts) \
+                and all(isinstance(t, ast.Name) for t in s.targets[0].elts):
+            vals = [_SubstEnv(env).visit(copy.deepcopy(v)) for v in s.value.elts]
+            for t, v in zip(s.targets[0].elts, vals):
+                env[t.id] = v
+        elif isinstance(s, ast.Assign) and len(s.targets) == 1 and isinstance(s.targets[0], (ast.Tuple, ast.List)) \
+                and all(isinstance(t, ast.Name) for t in s.targets[0].elts):
+            # tuple unpacking of a call: name -> call(...)[i]
+            v = _SubstEnv(env).visit(copy.deepcopy(s.value))
+            for i, t in enumerate(s.targets[0].elts):
+                env[t.id] = ast.Subscript(value=copy.deepcopy(v), slice=ast.Constant(value=i), ctx=ast.Load())
+        elif isinstance(s, ast.AnnAssign) and isinstance(s.target, ast.Name) and s.value is not None:
+            env[s.target.id] = _SubstEnv(env).visit(copy.deepcopy(s.value))
+        else:
+            for n in stored_names(s):
+                env.pop(n, None)
+    return env
+
+
+def at(stmts, stmt, expr, env0=None):
+    """expr as seen just before `stmt` on the linear path, with every name replaced by its definition"""
+    env = seq_env(stmts, upto=stmt, env=env0)
+    return _SubstEnv(env).visit(copy.deepcopy(expr))
